@@ -59,7 +59,7 @@ def add_case(em, impl, payload, label, proj, desc):
     em.add("obs_msg T %d%%N %s (unpack %s)" % (proj, vlib.zlit(lz), bl), exp, fl, desc,
            {"payload": payload.hex(), "labelmsm": lz, "projection": proj}, readable,
            explain="match construct T (Some (unpack %s)) %s with Ok o => Ok (o_attrs o) | Lib e => Lib e | Foreign k => Foreign k | Unmodelled w => Unmodelled w end" % (bl, vlib.zlit(lz)),
-           size=len(payload))
+           size=len(payload), spec=["msg", payload.hex(), label if not isinstance(label, bool) else 1, proj])
     em.count("outcome." + vlib.TAGNAME[tag])
     return tag, readable
 
@@ -280,6 +280,39 @@ def run_C07(em, impl, tabs, rng, thorough):
     em.samples = [{"payload": p.hex()[:100]} for p in pays[:3]]
 
 
+def check_labels_from_masks(em, impl, b, label):
+    """C09 oracle that does not walk the layout: counts and label attributes computed from the three mask values alone"""
+    import pinned
+    tag, m = impl.construct(b.payload, label)
+    if tag != 0:
+        return
+    em.direct_evaluations += 1
+    pub = dict(gen.public_attrs(m))
+    a, s_, c = pub.get("DF394"), pub.get("DF395"), pub.get("DF396")
+    if a is None or s_ is None or c is None:
+        em.violation("C09: MSM message %s without its mask attributes" % b.ident, {"payload": b.payload.hex()}, {})
+        return
+    sat = [i + 1 for i in range(64) if a >> (63 - i) & 1]
+    sig = [i + 1 for i in range(32) if s_ >> (31 - i) & 1]
+    w = len(sat) * len(sig)
+    cells = [(x, y) for x in sat for y in sig]
+    cells = [cells[j] for j in range(w) if c >> (w - 1 - j) & 1]
+    pm, sm = pinned.PRN[b.ident[:3]], pinned.SIG[b.ident[:3]]
+    want = {"NSat": len(sat), "NSig": len(sig), "NCell": len(cells)}
+    for i, x in enumerate(sat):
+        want["PRN_%02d" % (i + 1)] = pm.get(x, pinned.NA)
+    for k, (x, y) in enumerate(cells):
+        want["CELLPRN_%02d" % (k + 1)] = pm.get(x, pinned.NA)
+        want["CELLSIG_%02d" % (k + 1)] = (sm[y][0 if label == 2 else 1] if y in sm else pinned.NA)
+    got = {k: v for k, v in pub.items() if is_msm_attr(k)}
+    if got != want:
+        miss = sorted(set(want) - set(got))[:4]
+        extra = sorted(set(got) - set(want))[:4]
+        diff = [(k, got[k], want[k]) for k in want if k in got and got[k] != want[k]][:4]
+        em.violation("C09: counts / satellite / cell labels of %s differ from what the three masks say" % b.ident,
+                     {"payload": b.payload.hex(), "labelmsm": label}, {"missing": miss, "unexpected": extra, "different(name,got,want)": repr(diff)})
+
+
 def run_C09(em, impl, tabs, rng, thorough):
     msm = list(tabs.M)
     modes = [None, "full", "empty", "last", "reserved", None]
@@ -297,6 +330,7 @@ def run_C09(em, impl, tabs, rng, thorough):
                 add_case(em, impl, b.payload, label, MSM, "%s masks=%s label option %d: NSat=%s NSig=%s NCell=%s" % (
                     ident, mm, label, b.counts.get("NSat"), b.counts.get("NSig"), b.counts.get("NCell")))
                 check_expected(em, impl, b, label, "C09")
+                check_labels_from_masks(em, impl, b, label)
     # more than 64 cells (the cell mask is wider than one machine word)
     for ident in rng.sample(msm, 6 if thorough else 3):
         b = gen.build(tabs, ident, rng, mode="zeros", maskmode="full", label=1)
